@@ -346,6 +346,7 @@ func (f *Frame) stdModel(in ssa.Instruction, callee *ssa.Function, cc *ssa.CallC
 		return nil, true
 	case "(*strings.Builder).WriteByte", "(*strings.Builder).WriteString", "(*strings.Builder).WriteRune", "(*strings.Builder).Write", "(*strings.Builder).Reset":
 		c.note("assumed", "assumed contract: strings.Builder accumulates exactly the bytes written to it (ghost content per builder); its write methods never fail")
+		f.callsiteObligations(in, "Builder."+callee.Name(), "strings.Builder."+callee.Name(), nil, args, st)
 		g := c.heapGet(st, ghostBuilder, ArrSort(SInt, SStr))
 		cur := Select(g, args[0][0])
 		var nv Term
@@ -365,6 +366,7 @@ func (f *Frame) stdModel(in ssa.Instruction, callee *ssa.Function, cc *ssa.CallC
 			st.assume(c, Eq(res[len(res)-2], IntLit(0)))
 		}
 		c.setHeap(st, ghostBuilder, c.define("ghost", Store(g, args[0][0], nv)))
+		f.recordCall(st, cc, res, "Builder."+callee.Name())
 		return res, true
 	case "(*strings.Builder).String":
 		g := c.heapGet(st, ghostBuilder, ArrSort(SInt, SStr))
@@ -373,6 +375,7 @@ func (f *Frame) stdModel(in ssa.Instruction, callee *ssa.Function, cc *ssa.CallC
 		g := c.heapGet(st, ghostBuilder, ArrSort(SInt, SStr))
 		return []Term{c.strLen(Select(g, args[0][0]))}, true
 	case "(*strings.Builder).Grow":
+		f.callsiteObligations(in, "Builder.Grow", "strings.Builder.Grow", nil, args, st)
 		return nil, true
 	case "(*bufio.Reader).ReadByte":
 		c.note("assumed", "assumed contract: bufio.Reader.UnreadByte succeeds when the most recent reader operation was a successful ReadByte (ghost flag canUnread)")
@@ -468,7 +471,7 @@ func (f *Frame) stdModel(in ssa.Instruction, callee *ssa.Function, cc *ssa.CallC
 		c.note("assumed", "assumed contract: strings.HasPrefix(s,p) <=> p is empty, or both are non-empty with equal first bytes and HasPrefix(s[1:], p[1:]) (recursive characterisation); HasPrefix(s,p) && len(s)==len(p) <=> s == p")
 		return []Term{c.strPrefix(args[0][0], args[1][0], 0)}, true
 	case "strings.HasSuffix":
-		c.note("assumed", "assumed contract: strings.HasSuffix(s,p) is a function of (s,p); true for empty p; implies len(p) <= len(s)")
+		c.note("assumed", "assumed contract: strings.HasSuffix(s,p) is a function of (s,p); true for empty p; implies len(p) <= len(s) and, for a constant p, that the last bytes of s are p's")
 		if !c.declared["ssuffix"] {
 			c.declared["ssuffix"] = true
 			c.emit("(declare-fun ssuffix (Str Str) Bool)")
@@ -477,6 +480,14 @@ func (f *Frame) stdModel(in ssa.Instruction, callee *ssa.Function, cc *ssa.CallC
 		r := app(SBool, "ssuffix", sT, pT)
 		st.assume(c, Implies(Eq(c.strLen(pT), IntLit(0)), r))
 		st.assume(c, Implies(r, Le(c.strLen(pT), c.strLen(sT))))
+		if k, ok := cc.Args[1].(*ssa.Const); ok && k.Value != nil {
+			// a constant suffix: the last bytes of s are its bytes
+			suf := constant.StringVal(k.Value)
+			for j := 0; j < len(suf) && j < 8; j++ {
+				idx := Sub(c.strLen(sT), IntLit(int64(len(suf)-j)))
+				st.assume(c, Implies(r, Eq(app(SInt, "sat", sT, idx), IntLit(int64(suf[j])))))
+			}
+		}
 		return []Term{r}, true
 	case "strings.TrimPrefix":
 		c.note("assumed", "assumed contract: strings.TrimPrefix(s,p) == s[len(p):] if HasPrefix(s,p), else s")
@@ -484,9 +495,13 @@ func (f *Frame) stdModel(in ssa.Instruction, callee *ssa.Function, cc *ssa.CallC
 		hp := c.strPrefix(sT, pT, 0)
 		return []Term{Ite(hp, c.strSub(sT, c.strLen(pT), c.strLen(sT)), sT)}, true
 	case "strings.IndexRune", "strings.IndexByte", "strings.Index", "strings.LastIndex", "strings.LastIndexByte":
-		c.note("assumed", "assumed contract: strings.Index*/LastIndex*(s, x) returns -1 or an index below len(s)")
+		c.note("assumed", "assumed contract: strings.Index*/LastIndex*(s, x) returns -1 or an index below len(s); for IndexByte/LastIndexByte a found index holds the byte")
 		r := c.fresh("index", SInt)
 		st.assume(c, And(Ge(r, IntLit(-1)), Lt(r, Ite(Gt(c.strLen(args[0][0]), IntLit(0)), c.strLen(args[0][0]), IntLit(0)))))
+		if callee.Name() == "IndexByte" || callee.Name() == "LastIndexByte" {
+			// a found index holds the byte looked for
+			st.assume(c, Implies(Ge(r, IntLit(0)), Eq(app(SInt, "sat", args[0][0], r), args[1][0])))
+		}
 		return []Term{r}, true
 	case "strings.IndexAny":
 		if k, ok := cc.Args[1].(*ssa.Const); ok && k.Value != nil {
